@@ -32,6 +32,12 @@ def models(tier):
     out.append(monitors.ScenarioModel("inbound-traffic-vs-timeout", BASE,
                                       [("tick", 1), ("m", 0, "dwr"), ("m", 0, "req"), ("m", 0, "cer_p0"), ("m", 0, "cer_nocommon")],
                                       MONS, max_socks=1, prelude=[("accept",)]))
+    # ... also when traffic keeps arriving more often than the node's wake-up interval (its select never times out)
+    slow = copy.deepcopy(BASE)
+    slow["node"].update({"wakeup": 3, "cer_timeout": 1})
+    out.append(monitors.ScenarioModel("inbound-traffic-more-frequent-than-the-wake-up-interval", slow,
+                                      [("seq", ("tick", 1), ("m", 0, "dwr")), ("seq", ("tick", 1), ("m", 0, "req")), ("tick", 1), ("m", 0, "cer_p0")],
+                                      MONS, max_socks=1, prelude=[("accept",)]))
     # no application at all / acct only
     noapp = copy.deepcopy(BASE)
     noapp["apps"] = []
@@ -124,9 +130,9 @@ def run(tier):
     rep.cov["schedules"] = sched_execs
     depth = 6 if tier == "thorough" else 5
     ms = models(tier)
-    tot = monitors.run_models(rep, [m for m in ms if m.name != "inbound-traffic-vs-timeout"], depth, dedup_depth_plain=depth - 2,
+    tot = monitors.run_models(rep, [m for m in ms if not m.name.startswith("inbound-traffic-")], depth, dedup_depth_plain=depth - 2,
                               time_cap=900 if tier == "thorough" else 100)
-    t2 = monitors.run_models(rep, [m for m in ms if m.name == "inbound-traffic-vs-timeout"], depth + 3, dedup_depth_plain=depth,
+    t2 = monitors.run_models(rep, [m for m in ms if m.name.startswith("inbound-traffic-")], depth + 3, dedup_depth_plain=depth,
                              time_cap=900 if tier == "thorough" else 100)
     for k in tot:
         tot[k] = max(tot[k], t2[k]) if k == "max_depth" else tot[k] + t2[k]
